@@ -354,6 +354,18 @@ func TestC19EndToEnd(t *testing.T) {
 					t.Fatalf("C19 end to end: key %q set through a handler listing nodes as %v is not found through a handler listing them as %v (nodes %v, two of which share ring point %d): %+v; replay %s", k, permuted(addrs, wo), permuted(addrs, ro), addrs, point, res, p)
 				}
 			}
+			// multi-key gets in which stored keys follow keys that were never stored:
+			// where a key is looked for must not depend on its neighbours in the request
+			for i := 0; i+3 <= len(keys); i += 3 {
+				batch := []string{fmt.Sprintf("never-stored-%d", i), keys[i], fmt.Sprintf("never-stored-%d", i+1), keys[i+1], keys[i+2]}
+				res, _ := execHandler(hr, wire.Cmd{Kind: wire.Get, Keys: batch}, 0)
+				for _, j := range []int{1, 3, 4} {
+					if res.Err != nil || res.Hits[j] == nil || string(res.Hits[j].Value) != "v-"+batch[j] {
+						p := rec.Violation("TestC19EndToEnd", map[string]interface{}{"nodes": addrs, "set_order": wo, "get_order": ro, "batch": batch, "position": j})
+						t.Fatalf("C19 end to end: in the multi-key get %v the stored key %q (position %d) is not found (nodes %v, read through listing %v): %+v; replay %s", batch, batch[j], j, addrs, permuted(addrs, ro), res, p)
+					}
+				}
+			}
 			hr.Close()
 			rec.Case(wi != ri, fmt.Sprintf("e2e|%v|%v", wo, ro), "end-to-end")
 		}
